@@ -135,3 +135,146 @@ def c11(run, replay):
         run, "ErrCodecMC", "ErrCodecTrace", "c11",
         rule="all 495 rows of ErrCodec.tla, each run through a real client/server pair with seeded messages; distinct = distinct abstract rows",
         sig=lambda t: "row %s" % json.dumps(t["row"], sort_keys=True))
+
+
+# --------------------------------------------------------------------------------------------- C20
+C20_PATTERNS = ["readall", "small", "bytewise", "pasteof", "pasteofslow", "eofclose", "eofcloseread", "closefirst", "partialclose"]
+C20_LENS = [0, 1, 511, 512, 513, 4095, 4096, 4097, 32767, 32768, 32769, 65537, 1 << 20]
+
+
+def c20_sim_scenarios(run, wd, num):
+    """TLC-simulated behaviours of ReaderParam.tla projected to harness scenarios (arrival order + handler script)."""
+    import simparse
+    simdir = os.path.join(wd, "sim")
+    os.makedirs(simdir, exist_ok=True)
+    res = run.tlc(wd, "ReaderParam.tla", "ReaderParamSim.cfg", workers=1, timeout=300, tag="model_runs",
+                  extra=["-simulate", "file=%s/b,num=%d" % (simdir, num), "-depth", "60", "-seed", str(run.seed)])
+    if res["rc"] != 0:
+        raise vp.ToolFailure("TLC simulation of ReaderParam failed:\n" + res["out"][-2000:])
+    scen = []
+    for init, steps in simparse.behaviours(os.path.join(simdir, "b")):
+        lens = simparse.fun_of(init, "len")
+        calls, order = [], None
+        for c in sorted(lens):
+            ops, seen_eof_reads, started = "", 0, False
+            firsts = [a for a, args in steps if args == [c] and a in ("UpArrive", "DecArrive")]
+            if order is None and firsts:
+                order = "upfirst" if firsts[0] == "UpArrive" else "decfirst"
+            pending_pause = False
+            reads = 0
+            for a, args in steps:
+                if args != [c]:
+                    continue
+                if a == "HStart":
+                    started = True
+                elif a == "ReadBegin":
+                    ops += ("s" if pending_pause else "") + "r"
+                    pending_pause = False
+                    reads += 1
+                elif a == "HClose":
+                    ops += "c"
+                elif a == "UpReturn":
+                    pending_pause = True
+            if not started:
+                ops = ops or "r"
+            calls.append({"len": lens[c] * 1024, "pattern": "ops:" + ops, "src": "mem"})
+        scen.append({"transport": "http", "order": order or "free", "calls": calls, "from": "tlc-simulate"})
+    return scen
+
+
+@check("C20")
+def c20(run, replay):
+    run.assumptions += [
+        "payload lengths sampled around 512 / 4 KiB / 32 KiB buffers up to 1 MiB (4 MiB thorough), all byte values (seeded random)",
+        "arrival order of upload and request is forced with gates outside the library (RPC round-tripper waits for the upload / "
+        "upload handler wrapper waits for the RPC request plus 15 ms); over WebSocket the order is left to the scheduler",
+        "a Read returning data together with an error is recorded as two reads",
+        "the upload is considered completed before consumption only if no Read or Close of the handler had even begun",
+    ]
+    thorough = run.tier == "thorough"
+    wd = run.dir("work")
+    rnd = random.Random(run.seed)
+    # design level: ReaderParam.tla, both repairs on (must hold) and each repair off (must be violated: non-vacuity)
+    run.model_check(wd, "ReaderParam.tla", "ReaderParam.cfg", timeout=900)
+    for cfg, inv in (("ReaderParam_noonce.cfg", "NoDoubleClose"), ("ReaderParam_nosticky.cfg", "EofConsistent")):
+        r = run.tlc(wd, "ReaderParam.tla", cfg, timeout=600, tag="model_runs")
+        if r["violated"] != inv:
+            raise vp.ToolFailure("self-test: %s should violate %s, got %s" % (cfg, inv, r["violated"]))
+    # scenarios: named patterns x lengths x order x transport (seeded slice in quick), concurrent mixes, TLC-simulated scripts
+    scen = []
+    lens = C20_LENS + ([4 << 20] if thorough else [])
+    for p in C20_PATTERNS:
+        for L in lens:
+            if p == "bytewise" and L > 5000:
+                continue
+            if not thorough and rnd.random() > 0.55:
+                continue
+            tr = rnd.choice(["ws", "http"])
+            order = rnd.choice(["free", "upfirst", "decfirst"]) if tr == "http" else "free"
+            scen.append({"transport": tr, "order": order,
+                         "calls": [{"len": L, "pattern": p, "src": rnd.choice(["mem", "slow", "pipe"]) if L < 70000 else "mem"}]})
+    for _ in range(40 if thorough else 12):
+        calls = [{"len": rnd.choice(C20_LENS[:11]), "pattern": rnd.choice(C20_PATTERNS), "src": "mem"} for _ in range(rnd.choice([2, 3]))]
+        scen.append({"transport": rnd.choice(["ws", "http"]), "order": "free", "calls": calls})
+    # handlers that wait for each other before reading: every upload must be able to proceed independently
+    for k in ([3, 4, 4] if thorough else [3, 4]):
+        scen.append({"transport": rnd.choice(["ws", "http"]), "order": "free",
+                     "calls": [{"len": rnd.choice([1, 512, 4097]), "pattern": "barrier+" + rnd.choice(["readall", "pasteof", "eofclose"]), "src": "mem"}
+                               for _ in range(k)]})
+    with open(os.path.join(wd, "scen.ndjson"), "w") as f:
+        for s in scen:
+            f.write(json.dumps(s) + "\n")
+    sim = c20_sim_scenarios(run, wd, 400 if thorough else 80)
+    with open(os.path.join(wd, "scen_sim.ndjson"), "w") as f:
+        for s in sim:
+            f.write(json.dumps(s) + "\n")
+
+    def verdict_pass(tracefile, label):
+        import shutil
+        shutil.copy(os.path.join(wd, tracefile), os.path.join(wd, "trace.ndjson"))
+        res = run.validate_trace(wd, "ReaderParamObs.tla", "ReaderParamObs.cfg", timeout=1800)
+        trace = vp.read_ndjson(os.path.join(wd, tracefile))
+        scs = [t for t in trace if t.get("ev") == "reset"]
+        run.cov["traces_validated_against_impl"] += len(scs)
+        run.cov["evaluations"] += sum(1 for t in trace if t.get("ev") == "callstart")
+        for v in res.get("viol", []):
+            scn, call, clause = v
+            evs, cur = [], None
+            for t in trace:
+                if t.get("ev") == "reset":
+                    cur = t.get("sc")
+                if cur == scn:
+                    evs.append(t)
+            run.violation("%s: %s" % (label, clause), clause, {"property": "C20", "scenario": scn, "call": call, "clause": clause,
+                                                                "events": evs[:400], "seed": run.seed})
+        return trace
+
+    run.harness("c20", wd, infile="scen.ndjson", outfile="trace_a.ndjson", timeout=1800)
+    ta = verdict_pass("trace_a.ndjson", "pattern")
+    run.harness("c20", wd, infile="scen_sim.ndjson", outfile="trace_b.ndjson", timeout=1800)
+    tb = verdict_pass("trace_b.ndjson", "tlc-script")
+    # binding: the TLC-generated scripts, executed by the real code, must be behaviours of ReaderParam
+    import shutil
+    shutil.copy(os.path.join(wd, "trace_b.ndjson"), os.path.join(wd, "trace.ndjson"))
+    bj = os.path.join(wd, "binding.json")
+    if os.path.exists(bj):
+        os.remove(bj)
+    r = run.tlc(wd, "ReaderParamTrace.tla", "ReaderParamTrace.cfg", workers=1, timeout=1800, tag="trace_runs")
+    if r["timeout"]:
+        raise vp.ToolFailure("binding validation timed out")
+    accepted = os.path.exists(bj)
+    run.cov["binding"] = {"trace_lines": len(tb), "accepted": accepted, "violated": r["violated"]}
+    if r["violated"] == "TraceInvs":
+        run.violation("binding: design invariant of ReaderParam violated on a real execution", "TraceInvs", {"property": "C20", "tlc": r["out"][-3000:]})
+    elif not accepted:
+        import re as _re
+        m = _re.search(r'"HIGHWATER", (\d+)', r["out"])
+        hw = int(m.group(1)) if m else 0
+        run.cov["drift"] += 1
+        run.cov["drift_samples"] = tb[max(0, hw - 6):hw + 2]
+        print("DRIFT property=C20 binding: real execution is not a behaviour of ReaderParam.tla at trace line %d (verdicts come from P_C20)" % hw)
+    run.cov["distinct_nontrivial"] = len(set(json.dumps(s, sort_keys=True) for s in scen + sim))
+    run.cov["rule"] = ("scenarios = named read pattern x payload length x arrival order x transport, concurrent mixes, and handler scripts projected "
+                       "from TLC-simulated behaviours of ReaderParam.tla; distinct = distinct scenario descriptions")
+    for t in (ta[:1] + [x for x in tb if x.get("ev") == "reset"][:2] + [x for x in tb if x.get("ev") == "readend"][:2]):
+        run.sample(t)
